@@ -21,6 +21,13 @@ def run(ctx):
     LJ = lambda l: '[' + '; '.join(jc.cj(x) for x in l) + ']'
     cases = [dict(results=[pb.gen_result(r, j) for j in range(r.choice([1, 1, 2, 3, 6]))], header=r.random() < 0.5) for i in range(500 if th else 60)]
     cases.append(dict(results=[pb.gen_result(r, 0, passed_out=True), pb.gen_result(r, 1, passed_out=False)], header=True))
+    # tag pairs that exactly fill a line (254 characters + line end), and one shorter: [Event "..."] has 10 characters of syntax
+    for field, syntax in (('event', 10), ('site', 9)):
+        for n in (254 - syntax, 253 - syntax, 200):
+            x = pb.gen_result(r, 0)
+            x[field] = pb.word(r, n).replace('  ', ' x')
+            y = pb.gen_result(r, 1)
+            cases.append(dict(results=[x, y], header=False))
     lines = [dict(text=pb.word(r, n)) for n in (1, 10, 253, 254, 255, 256, 300, 509, 510, 511, 800)] + [dict(text=pb.word(r, n) + '\n') for n in (1, 254, 255, 600)]
     out = lib.run_impl('pbn', dict(exports=cases, lines=lines))
     lib.make(['Spec/JsonOracle.vo', 'Model/JsonTie.vo', 'Model/PbnTie.vo'])
